@@ -430,6 +430,8 @@ def c02(tier, seed):
     scs = canvas_gen("C02", v, "frame", 2, 28 if th else 10, salt=seed)
     scs += canvas_gen("C02", v, "frame", 3, 4, draws=2, simulate=4000 if th else 600, depth=6, seed=seed, salt=seed)
     scs += canvas_gen("C02", v, "clip", 3, 3, simulate=2000 if th else 300, depth=5, seed=seed + 1, salt=seed)
+    # deep clip nestings (path, rect, path ...: a pixel inside the later clips but outside an earlier path must not change)
+    scs += canvas_gen("C02", v, "clip", 5, 3, draws=2, simulate=3000 if th else 800, depth=9, seed=seed + 3, salt=seed)
     scs += canvas_gen("C02", v, "frame", 3, 3, draws=2, simulate=1500 if th else 200, depth=6, seed=seed + 2, salt=seed, size=(9, 6))
     scs += drive("C02", "canvas", seed, 3000 if th else 400)
     v.exhaustive = True
@@ -939,6 +941,8 @@ def c04(tier, seed):
     v.exhaustive = th
     scs += extra_scenarios("C04")
     scs += drive("C04", "stroke", seed, 2000 if th else 250)
+    # every vertex off the surface by just over half the width: only miter tips and square-cap corners reach onto it
+    scs += drive("C04", "stroke-offsurf", seed, 800 if th else 150)
     # a non-positive or NaN width paints nothing (plain and dashed strokes, every cap and join)
     scs += drive("C04", "stroke-nonpos", seed, 400 if th else 60) + drive("C04", "stroke-nonpos", seed + 1, 400 if th else 60)
     scs += stroke_ops_binding("C04", v, "stroke", seed, 20000 if th else 2500, 40 if th else 8)
